@@ -1311,6 +1311,56 @@ fn check_totality(seed: u64) -> i32 {
     0
 }
 
+/// C13 / C14 (caches are invisible): random query histories -- number_arrivals and steps_iter prefixes in random order on
+/// three clones sharing one cache -- always answer like a FRESH extrapolating curve that has seen nothing before, and like an
+/// eagerly extrapolated plain curve; the same for the caching cost curve
+fn check_cache(seed: u64) -> i32 {
+    let mut r = Rng(seed ^ 0xcac4e);
+    for _ in 0..400 {
+        // super-additive prefixes, including zero first entries and plateaus (simultaneous arrivals)
+        let a = r.below(4); let b = 2 * a + r.below(4); let c = (a + b + r.below(4)).max(1);
+        let mk = || Curve::new(vec![d(a), d(b), d(c)]);
+        let shared = arrival::ExtrapolatingCurve::new(mk());
+        let clones = [shared.clone(), shared.clone(), shared];
+        let mut eager = mk(); eager.extrapolate(d(400));
+        let mut history = vec![];
+        for _ in 0..14 {
+            let who = r.below(3) as usize;
+            if r.below(3) == 0 {
+                let k = 1 + r.below(25) as usize;
+                history.push(format!("clone{}.steps_iter().take({})", who, k));
+                let got = guarded(|| clones[who].steps_iter().take(k).map(ud).collect::<Vec<u64>>());
+                let fresh: Vec<u64> = arrival::ExtrapolatingCurve::new(mk()).steps_iter().take(k).map(ud).collect();
+                let exp: Vec<u64> = eager.steps_iter().take(k).map(ud).collect();
+                if got != Ok(fresh.clone()) || fresh != exp { return fail("arrival::ExtrapolatingCurve(cache history)", format!("{{\"dmin\": [{}, {}, {}], \"history\": {:?}}}", a, b, c, history), format!("{:?}", got), format!("fresh {:?} / eager {:?}", fresh, exp)); }
+            } else {
+                let delta = r.below(160);
+                history.push(format!("clone{}.number_arrivals({})", who, delta));
+                let got = guarded(|| clones[who].number_arrivals(d(delta)));
+                let fresh = arrival::ExtrapolatingCurve::new(mk()).number_arrivals(d(delta));
+                let exp = eager.number_arrivals(d(delta));
+                if got != Ok(fresh) || fresh != exp { return fail("arrival::ExtrapolatingCurve(cache history)", format!("{{\"dmin\": [{}, {}, {}], \"history\": {:?}}}", a, b, c, history), format!("{:?}", got), format!("fresh {} / eager {}", fresh, exp)); }
+            }
+        }
+        // cost curve cache (sub-additive prefix: x <= y <= 2x, z <= x + y)
+        let x = 1 + r.below(4); let y = x + r.below(x + 1); let z = y + r.below(x + 1);
+        let mkw = || wcet::Curve::new(vec![s(x), s(y), s(z)]);
+        let shared = wcet::ExtrapolatingCurve::new(mkw());
+        let clones = [shared.clone(), shared];
+        let mut hist = vec![];
+        for _ in 0..12 {
+            let who = r.below(2) as usize; let n = r.below(40) as usize;
+            let lw = r.below(2) == 0;
+            hist.push(format!("clone{}.{}({})", who, if lw { "least_wcet" } else { "cost_of_jobs" }, n));
+            let got = guarded(|| if lw { us(clones[who].least_wcet(n)) } else { us(clones[who].cost_of_jobs(n)) });
+            let fr = wcet::ExtrapolatingCurve::new(mkw());
+            let fresh = if lw { us(fr.least_wcet(n)) } else { us(fr.cost_of_jobs(n)) };
+            if got != Ok(fresh) { return fail("wcet::ExtrapolatingCurve(cache history)", format!("{{\"prefix\": [{}, {}, {}], \"history\": {:?}}}", x, y, z, hist), format!("{:?}", got), format!("fresh {}", fresh)); }
+        }
+    }
+    0
+}
+
 pub fn search(obligation: &str, seed: u64) -> i32 {
     let o = obligation;
     let mut ran = false;
@@ -1318,7 +1368,7 @@ pub fn search(obligation: &str, seed: u64) -> i32 {
     let mut rc = 0;
     if let Some(cat) = o.strip_prefix("cat:") {
         rc = match cat { "supply" => run(check_supply), "fixed_point" => run(check_fixed_point), "arrival" => run(check_arrival), "steps" => run(check_steps),
-                         "wcet_demand" => run(check_wcet_demand), "analyses" => { let rc = run(check_analyses); if rc == 0 { run(check_analyses_tab) } else { rc } }, "ros2" => { let rc = run(check_ros2); if rc == 0 { run(check_ros2_tab) } else { rc } }, "ros2_all_scalar" => run(check_ros2_all_scalar), "ros2_bw_all" => run(check_ros2_bw_all), "ros2_mono" => run(check_ros2_mono), "coincide" => run(check_coincide), "totality" => run(check_totality), "queries" => run(check_queries), "ros2_all_multiframe" => run(check_ros2_all_multiframe), _ => 3 };
+                         "wcet_demand" => run(check_wcet_demand), "analyses" => { let rc = run(check_analyses); if rc == 0 { run(check_analyses_tab) } else { rc } }, "ros2" => { let rc = run(check_ros2); if rc == 0 { run(check_ros2_tab) } else { rc } }, "ros2_all_scalar" => run(check_ros2_all_scalar), "ros2_bw_all" => run(check_ros2_bw_all), "ros2_mono" => run(check_ros2_mono), "coincide" => run(check_coincide), "totality" => run(check_totality), "queries" => run(check_queries), "cache" => run(check_cache), "ros2_all_multiframe" => run(check_ros2_all_multiframe), _ => 3 };
     }
     else if o.contains("src/arrival/steps") || o.contains("src/arrival/dmin") || o.contains("arrival_curve_prefix") { rc = run(check_steps); }
     else if o.contains("src/supply/") { rc = run(check_supply); if rc == 0 { rc = run(check_fixed_point); } }
